@@ -40,7 +40,7 @@ class MGView(FnView):
         return False
 
     def level(self, n):
-        """normal form of a level index expression: ('top',0) | ('crs',0) | ('last',k) | ('v', decl, k) | None"""
+        """normal form of a level index expression: ('top',k) | ('crs',k) | ('last',k) | ('abs',k) | ('v', decl, k) | None"""
         n = self.value(n)
         k = n.get("k")
         if is_this_member(n, "_top_level"):
@@ -49,6 +49,8 @@ class MGView(FnView):
             return ("crs", 0)
         if self.is_last(n):
             return ("last", 0)
+        if k == "Int":
+            return ("abs", int(n["v"]))       # a literal is an absolute level index
         if k == "Ref" and n.get("dk") in ("local", "param"):
             return ("v", n["d"], 0)
         if k == "Bin" and n.get("op") in ("+", "-"):
@@ -71,6 +73,8 @@ class MGView(FnView):
             d = lv[1]
             nm = (self.locals.get(d) or self.params.get(d) or {}).get("n", "v%d" % d)
             return nm + ("%+d" % lv[2] if lv[2] else "")
+        if lv[0] == "abs":
+            return "%d" % lv[1]
         return lv[0] + ("%+d" % lv[1] if lv[1] else "")
 
     # ---- objects ----------------------------------------------------------------------------------
